@@ -427,7 +427,9 @@ func H_C15_seq_cast() {
 	vResetDecOpts()
 	t := []string{"1", "true", "x", "2.5", ""}[vChoose(5)]
 	var piece string
-	switch vChoose(6) {
+	switch vChoose(7) {
+	case 6: // text that a comment splits in two
+		piece = "12<!--c-->" + t
 	case 0:
 		piece = "<!--" + t + "-->"
 	case 1:
